@@ -363,7 +363,29 @@ class C20(Prop):
         prog.append({"name": "root", "nodes": top, "bound": []})
         return prog
 
+    @staticmethod
+    def _same_node_name_two_scopes(rng: random.Random) -> list[dict]:
+        """A gate INSIDE a nested graph routes to a local node, and a root-level node carries the same NAME; the graph input both the inner
+        gate and the root node read is still drawn into the root node (names are local to their graph, diagram ids are paths)."""
+        fn = gen._fn_node
+        shared = rng.choice(["score", "rank", "pick"])
+        gate = {"name": "chk", "kind": "ifelse", "params": [["query", None]], "targets": [shared, "other"], "body": {"b": "lt", "k": 2}, "defaultOpen": rng.random() < 0.5}
+        if rng.random() < 0.5:
+            gate = {"name": "chk", "kind": "route", "params": [["query", None]], "targets": [shared, "other", "__END__"], "multiTarget": False, "fallback": None,
+                    "defaultOpen": True, "body": {"b": "table", "rows": [[0, shared], [1, "other"]], "dflt": "__END__"}}
+        inner_nodes = [gate, fn(shared, [["query", None]], ["in_a"], {"b": "tag", "t": "in_a"}), fn("other", [["query", None]], ["in_b"], {"b": "tag", "t": "in_b"})]
+        rng.shuffle(inner_nodes)
+        prog = [{"name": "sub", "nodes": inner_nodes, "bound": []}]
+        top = [{"name": "sub", "kind": "graph", "inner": 0}, fn(shared, [["query", None]], ["top_v"], {"b": "tag", "t": "top"})]
+        if rng.random() < 0.5:
+            top.append(fn("tail", [["top_v", None]], ["end"], {"b": "tag", "t": "tail"}))
+        rng.shuffle(top)
+        prog.append({"name": "root", "nodes": top, "bound": []})
+        return prog
+
     def cases(self, rng: random.Random, tier: str) -> Iterable[dict]:
+        for _ in range(3):
+            yield {"program": self._same_node_name_two_scopes(rng)}
         for _ in range(4):
             yield {"program": self._hidden_inner_producer(rng)}
         for _ in range(3):
